@@ -136,8 +136,8 @@ CHECKS["C09"] = dict(
 CHECKS["C01"] = dict(
     level="exploration",
     text="TLC enumerates every planning configuration of the 3x3 cell world up to symmetry (5478: obstacle layout x start x "
-         "goal; model-determined facts: start/goal free, 8-reachability) and a bounded 4x4 part; a stratified sample (all of "
-         "them in the thorough tier's R^2 pass) is instantiated for all 45 registered planners in R^2, SE(2), R^3, SE(3), a "
+         "goal; model-determined facts: start/goal free, 8-reachability) and a bounded 4x4 part; a stratified sample (36 / "
+         "250 + 40 configurations, every class of the enumeration represented) is instantiated for all 45 registered planners in R^2, SE(2), R^3, SE(3), a "
          "weighted compound, Reeds-Shepp and Dubins, with four query variants (single, several starts, GoalStates, "
          "non-sampleable region) and with the planners' declared parameters swept through the ParamSet, under evaluation "
          "budgets, every run in its own process; every solve report carries facts from an "
